@@ -68,6 +68,8 @@ def run_one(m, runs, budget):
         shutil.copytree(os.path.join(REPO, "src"), os.path.join(root, "src"), ignore=shutil.ignore_patterns("__pycache__", "*.egg-info"))
         if "patch" in m:
             _apply_patch(root, m["patch"])
+        elif "patchfile" in m:
+            _apply_patch(root, os.path.join(HERE, "mutants", m["patchfile"]))
         elif "revert" in m:
             _apply_revert(root, m)
         else:
